@@ -277,6 +277,18 @@ def main_transitions(rep, f, c, sink):
                 end = 'return %s(%s)' % (rv[1].split('::')[1].replace(sink, 'X'), ','.join(N(a) for a in rv[2]))
             elif rv is not None and rv[0] == 'agg':
                 end = 'return (' + ','.join(N(x) for x in rv[2]) + ')'
+                # checking_end_with_offset written out: (r, read, w) = checking_end(self, &src[k..], dst, last); return (r, read + k, w)
+                if len(rv[2]) == 3 and len(calls) == 1 and calls[0][1] == 'Decoder::decode_to_%s_checking_end' % sink:
+                    a_ = calls[0][2]
+                    res_ = ('call', calls[0][1], a_, calls[0][3])
+                    ix_ = index_from(a_[1])
+                    try:
+                        tot_ = add_terms(rv[2][1])
+                    except Exception:
+                        tot_ = None
+                    if ix_ is not None and len(ix_) == 2 and strip_ref(ix_[0]) == SRC and strip_ref(a_[0]) == SELF and rv[2][0] == tuple_field(res_, 0) and \
+                            rv[2][2] == tuple_field(res_, 2) and tot_ is not None and tot_ == add_terms(('bin', 'Add', tuple_field(res_, 1), ix_[1])):
+                        end = 'return decode_to_X_checking_end_with_offset(%s,%s,%s,%s,%s)' % (N(a_[0]), 'src', N(a_[2]), N(a_[3]), N(ix_[1]))
             else:
                 end = 'return ?'
             if len(calls) > 1 or (calls and not end.startswith('return decode')):
